@@ -125,8 +125,33 @@ def r19b(ctx, rep):
     rep.floor("R19b", "self-reaching local types", n, 2)
 
 
+def r19c(ctx, rep):
+    from . import C03
+    facts = ctx["facts"]
+    rep.rule("R19c", "the marker stays iterative along cdr: in Heap::mark the cdr field of a Pair (and the target of a Ptr) "
+             "flows into the loop cursor that feeds gc::Map::mark, not into a recursive marker call — the anchor's "
+             "'iterative on cdr, recursive on car'. Delegating pairs to a routine that recurses on both fields makes the "
+             "native depth follow list length.")
+    fn = need(rep, "R19c", facts, C03.MARK)
+    if fn is None:
+        return
+    if not fn.back_edges():
+        rep.fail("R19c", "R19c|mark|loop", "Heap::mark no longer contains a loop: every cell visited costs a native frame", [fn.span])
+        return
+    reach = C03.marker_flows(facts, fn)
+    for v, i in (("Pair", 1), ("Ptr", 0)):
+        got = reach.get((v, i), set())
+        key = "R19c|mark|%s.%d" % (v, i)
+        if "loop-cursor" in got:
+            rep.ok("R19c", key, "VCell::%s field %d is followed by the loop cursor" % (v, i), [fn.span])
+        else:
+            rep.fail("R19c", key, "Heap::mark does not follow VCell::%s field %d with its loop cursor (it reaches %s): a list "
+                     "10^5 long costs 10^5 nested marker frames" % (v, i, ", ".join(sorted(got)) or "nothing"), [fn.span])
+
+
 def run(ctx, rep):
     r19a(ctx, rep)
     r19b(ctx, rep)
+    r19c(ctx, rep)
     rep.not_decided += ["actual frame sizes and the depth at which the abort happens",
                         "recursion hidden inside external crates (num, std)"]
